@@ -14,6 +14,7 @@ func init() {
 		ID: "C10",
 		Rules: []Rule{
 			{"A", "every decimal accumulation step x*10+d (discovered on SSA) is wrap-free: interval analysis over ideal integers with byte-set digit ranges and dominating guards, or an A2 pre-check x > (MAX-d)/10, or an A1 widened check of the same cells that dominates the step", ruleA},
+			{"W", "every other +,-,*,<< on an accumulator-derived value (q scaling, combined range expressions) is wrap-free at the point where it is computed", ruleW},
 			{"R", "documented ranges not implied by a type width: Content-Length <= 9 digits and <= 2^24 on its success path, the limit constants, contact expires saturating at the constant 2^32-1, q with more than three decimals flagged", ruleR},
 			{"N", "every narrowing integer conversion outside init has an operand whose range (intervals + dominating guards) fits the target type; conversions to OffsT are the documented 65,535 limit", ruleN},
 		},
@@ -253,5 +254,52 @@ func ruleR(c *Ctx) {
 			return true
 		})
 	}
+	ruleRWho(c)
 	c.check(qflag, "R", "setFromParamVal:q-decimals", token.NoPos, "a q value with more than three decimals ('.'+3 digits) is flagged in ParamErr and Q is not stored")
+}
+
+// ruleRWho: the Content-Length body object is only ever parsed by ParseCLenVal (so that a parsed
+// CLen.UIVal carries the 2^24 bound that rule W relies on).
+func ruleRWho(c *Ctx) {
+	n := 0
+	for k, fn := range c.SFuncs {
+		for _, b := range fn.Blocks {
+			for _, ins := range b.Instrs {
+				call, ok := ins.(*ssa.Call)
+				if !ok {
+					continue
+				}
+				cal := call.Call.StaticCallee()
+				if cal == nil || cal.Pkg != c.SSA {
+					continue
+				}
+				for _, a := range call.Call.Args {
+					if !strings.HasSuffix(a.Type().String(), ".PUIntBody") {
+						continue
+					}
+					origin := ""
+					switch o := a.(type) {
+					case *ssa.Call:
+						if o.Call.IsInvoke() {
+							origin = o.Call.Method.Name()
+						} else if sc := o.Call.StaticCallee(); sc != nil {
+							origin = sc.Name()
+						}
+					case *ssa.FieldAddr:
+						origin = addrPath(o)
+					case *ssa.Parameter:
+						origin = "param"
+					}
+					isCLen := origin == "GetCLen" || strings.HasSuffix(origin, ".CLen")
+					if !isCLen {
+						continue
+					}
+					n++
+					c.check(cal.Name() == "ParseCLenVal" || cal.Name() == "Parsed" || cal.Name() == "Reset" || cal.Name() == "Empty" || cal.Name() == "Pending",
+						"R", "clen-parser:"+k+":"+cal.Name(), call.Pos(), "the Content-Length body ("+origin+") is parsed only by ParseCLenVal, which enforces <= 9 digits and <= 2^24")
+				}
+			}
+		}
+	}
+	c.check(n >= 2, "R", "clen-parser:count", token.NoPos, fmt.Sprintf("%d parse calls on the Content-Length body found (frozen minimum 2)", n))
 }
